@@ -59,6 +59,12 @@ func newEngine(sp *common.Spec, mode string, at int) *ScriptedEngine {
 // epc == nil means: fresh context from the pre-state.
 func RunTransition(sp *common.Spec, pre common.BeaconState, epc *common.EpochsContext, sb SignedBlock, bf ForkID,
 	validate bool, engMode string, engAt int, failFrom int) (res RunResult) {
+	return RunTransitionCtx(sp, pre, epc, sb, bf, validate, engMode, engAt, failFrom, false)
+}
+
+// RunTransitionCtx: like RunTransition; deadline selects the error the failing context reports (DeadlineExceeded / Canceled).
+func RunTransitionCtx(sp *common.Spec, pre common.BeaconState, epc *common.EpochsContext, sb SignedBlock, bf ForkID,
+	validate bool, engMode string, engAt int, failFrom int, deadline bool) (res RunResult) {
 	st := CopyState(pre)
 	eng := newEngine(sp, engMode, engAt)
 	var spx *common.Spec
@@ -69,6 +75,7 @@ func RunTransition(sp *common.Spec, pre common.BeaconState, epc *common.EpochsCo
 	}
 	res.Engine = eng
 	ctx := NewPollCtx(failFrom)
+	ctx.ByDeadline = deadline
 	var partial *beacon.StandardUpgradeableBeaconState
 	defer func() {
 		res.Polls = ctx.Polls
@@ -192,6 +199,13 @@ type Chain struct {
 	SlotSteps                 []HonestSlots
 	prevEff                   []common.Gwei
 	cancelDone                map[string]bool
+	depForkIndex              uint64
+	depForkKey                KeyNum
+	depForkArmed              bool
+	Phase0LeakMix             bool
+	CommitteeDropChain        bool
+	wrongTargetIncluded       map[common.Epoch]int
+	epcTag                    string // tag put on untagged epc records (side branches)
 	NoSkipBeforePhase0Deposit bool
 	CoverForks                [5]bool // forks whose (fork, operation) pairs this chain covers with cancellation sweeps
 	branches                  int
@@ -255,7 +269,7 @@ func (c *Chain) problem(format string, a ...interface{}) {
 
 // recordEPC writes an `epc` record for (state id, live context).
 func (c *Chain) recordEPC(id string, st common.BeaconState, live *common.EpochsContext, withPub bool) {
-	c.recordEPCTagged(id, st, live, withPub, "")
+	c.recordEPCTagged(id, st, live, withPub, c.epcTag)
 }
 
 // recordEPCTagged returns whether the live dump equals the dump of a context computed from scratch.
